@@ -885,15 +885,20 @@ func Run(c *hx.Ctx) {
 		doNotify(c, b, true)
 		doDec(c, b, 0, "probe", true)
 	}
-	// deep nesting, in process: 64 KiB (the notify limit) and 1 MiB (the NeoVM byte-array limit)
-	for _, size := range []int{64 * 1024, 1024 * 1024} {
+	// deep nesting, in process: 64 KiB (the notify limit), 256 KiB, and in the thorough tier 1 MiB
+	// (the NeoVM byte-array limit; the first such decode costs ~5 s of goroutine stack growth)
+	sizes := []int{64 * 1024, 256 * 1024}
+	if !c.Quick() {
+		sizes = append(sizes, 1024*1024)
+	}
+	for _, size := range sizes {
 		d := size / 5
 		b := bytes.Repeat(append([]byte{cc.ListType}, le32(1)...), d)
 		doDec(c, b, 0, "deep", false)
 		doDec(c, append(b, cc.BooleanType, 0), 0, "deep", false)
 		doNotify(c, append(append([]byte{}, evt...), b...), false)
 	}
-	n := c.N(1300, 12000)
+	n := c.N(1040, 12000)
 	for i := 0; i < n; i++ {
 		switch i % 13 {
 		case 0, 1, 2:
@@ -910,7 +915,7 @@ func Run(c *hx.Ctx) {
 		}
 	}
 	// oracle only (not re-evaluated in Coq): more volume on the implementation
-	m := c.N(30000, 300000)
+	m := c.N(20000, 300000)
 	for i := 0; i < m; i++ {
 		switch i % 6 {
 		case 0:
